@@ -7,6 +7,7 @@ package main
 // /verif/specs/*.spec for functions outside /repo (assumed contracts).
 
 import (
+	"sync"
 	"fmt"
 	"math/big"
 	"os"
@@ -584,6 +585,7 @@ type Contract struct {
 	Props     map[string]bool
 	External  bool
 	NoBody    bool   // contract only used at call sites
+	LockOnly  bool   // only the lock obligations (C18) are generated for the body; everything else is assumed
 	Ghost     string // free-form note
 	Fresh     []string
 	Covers    []*Clause
@@ -630,6 +632,8 @@ type Axiom struct {
 }
 
 type ContractSet struct {
+	axMu     sync.Mutex
+	axGhosts map[*Axiom][]string
 	Funcs   map[string]*Contract
 	Specs   map[string]*SpecFunc
 	GFuncs  map[string]*GhostFunc
@@ -660,7 +664,7 @@ func parseTags(s string) (props []string, label string, rest string) {
 }
 
 var clauseKW = map[string]bool{"requires": true, "ensures": true, "assigns": true, "pure": true, "trusted": true, "loop": true,
-	"at-call": true, "func": true, "spec": true, "ghost": true, "lemma": true, "axiom": true, "iterated": true, "signal": true, "fresh": true, "cover": true, "nobody": true, "ghost-set": true, "moninv": true, "opaque": true, "iterates": true}
+	"at-call": true, "func": true, "spec": true, "ghost": true, "lemma": true, "axiom": true, "iterated": true, "signal": true, "fresh": true, "cover": true, "nobody": true, "lockonly": true, "ghost-set": true, "moninv": true, "opaque": true, "iterates": true}
 
 // LoadContractFile parses one contract file. pkgPath qualifies short function keys ("" for spec files,
 // whose keys are already fully qualified).
@@ -891,6 +895,8 @@ func (cs *ContractSet) LoadContractText(text, path, pkgPath string, external boo
 				cur.Trusted = true
 			case "nobody":
 				cur.NoBody = true
+			case "lockonly":
+				cur.LockOnly = true
 			case "iterated":
 				cur.Iterated = true
 			case "ghost-set":
